@@ -295,12 +295,12 @@ class Run:
                     json.dump(core.jsonable({"property": self.prop, "tier": self.tier, "seed": self.seed,
                                              "case": case, "violation": v}), f, indent=1)
                 replay_paths.append(path)
-                if len(shown) <= 25:
+                if len(shown) <= 12:
                     lines.append("VIOLATION property=%s replay=%s" % (self.prop, os.path.relpath(path, core.VERIF)))
                     lines.append("  monitor=%s key=%s detail=%s" % (v["monitor"], v.get("key"),
-                                                                   json.dumps(v.get("detail"))[:600]))
-            if len(shown) > 25:
-                lines.append("  ... %d more violation witnesses under replays/%s" % (len(shown)-25, self.prop))
+                                                                   json.dumps(v.get("detail"))[:300]))
+            if len(shown) > 12:
+                lines.append("  ... %d more violation witnesses under replays/%s" % (len(shown)-12, self.prop))
 
         status = "violated" if new else ("inconclusive" if self.inconclusive else "held")
         for r in self.inconclusive[:10]:
